@@ -28,6 +28,9 @@ def step (line : String) : String :=
   | ["bimap", m] => match parseMap m with
     | some pairs => if (newBiMap pairs).isSome then "ok" else "conflict"
     | none => "bad-op"
+  | ["startup", m] => match parseMap m with
+    | some pairs => if configAccepts "" pairs then "ok" else "rejected"
+    | none => "bad-op"
   | ["tr", m, n] => match parseMap m with
     | some pairs => encName (translateName pairs (decName n))
     | none => "bad-op"
